@@ -478,6 +478,61 @@ def _run_spec(res, spec, ops, anp):
         res["samples"].append({"spec": {k: v for k, v in spec.items() if k != "eseed"}, "expr": S.show(top)[:500], "value": gotf, "reference": ref})
 
 
+def run_high_order_towers(res, anp):
+    """Towers of depth 3-6 through ONE elementary function (every level differentiating the level below, random
+    forward / reverse assignment per level) at points where the rule is delicate: np.sinc at 0, next to 0 (inside
+    the rule's series region), inside the region's edge and at a generic point. Reference: termwise derivatives of the
+    everywhere-convergent power series of the function (no autograd rule involved)."""
+    import math
+
+    from autograd import deriv, grad
+
+    def series_deriv(name, x, n, terms=60):
+        # d^n/dx^n of sum_k c_k x^k
+        tot = 0.0
+        for k in range(n, terms):
+            if name == "sinc":
+                c = (-1.0) ** (k // 2) * math.pi**k / math.factorial(k + 1) if k % 2 == 0 else 0.0
+            elif name == "sin":
+                c = (-1.0) ** ((k - 1) // 2) / math.factorial(k) if k % 2 == 1 else 0.0
+            else:  # exp(2x)
+                c = 2.0**k / math.factorial(k)
+            if c:
+                tot += c * math.factorial(k) / math.factorial(k - n) * x ** (k - n)
+        return tot
+
+    fns = {"sinc": anp.sinc, "sin": anp.sin, "exp2x": lambda t: anp.exp(2.0 * t)}
+    rng = onp.random.Generator(onp.random.PCG64([2024, 8]))
+    for name, f in fns.items():
+        # (points just OUTSIDE the series region of sinc's rule, e.g. 3.1e-3, are not judged: there the quotient
+        # formula is evaluated and its 5th / 6th derivatives lose digits to cancellation - conditioning, not a rule)
+        for x in ((0.0, 1e-3, 2.9e-3, 0.37) if name == "sinc" else (0.0, 0.37)):
+            for n in (3, 4, 5, 6):
+                for rep in range(2):
+                    modes = [str(m) for m in rng.choice(["grad", "deriv"], size=n)] if rep else ["grad"] * n
+                    res["evaluations"] += 1
+                    sig = {"engine": "nesting", "family": "high_order_tower", "fn": name, "order": n, "modes": "".join(m[0] for m in modes), "point": repr(x)}
+                    case = {"spec": {"tower": name, "order": n, "modes": modes, "x": x}}
+                    g = f
+                    for m in modes:
+                        g = (grad if m == "grad" else deriv)(g)
+                    try:
+                        with warnings.catch_warnings():
+                            warnings.simplefilter("ignore")
+                            got = float(g(x))
+                    except Exception as e:
+                        res["violations"].append({"sig": dict(sig, symptom="exception:" + type(e).__name__), "case": case, "detail": traceback.format_exc()[-300:]})
+                        continue
+                    ref = series_deriv(name, x, n)
+                    scale = series_deriv(name, 0.0, n + (n % 2 if name != "exp2x" else 0)) if name != "exp2x" else ref
+                    if not abs(got - ref) <= 1e-4 * max(abs(ref), abs(scale) * 1e-2, 1e-9):
+                        s_ = dict(sig, symptom="wrong_value")
+                        res["violations"].append({"sig": s_, "case": case, "detail": "d^%d %s at %r through %s: autograd %r, series %r" % (n, name, x, "/".join(modes), got, ref)})
+                        res["judged"][sig_key(s_)] = 1
+                    else:
+                        res["judged"][sig_key(sig)] = 1
+
+
 def _new_result():
     return {"evaluations": 0, "judged": {}, "violations": [], "not_judged": {}, "counters": {}, "sets": {}, "samples": [], "info": {}}
 
@@ -499,6 +554,12 @@ def run_shard(pid, tier, seed, idx, n):
         except Exception:
             res["not_judged"]["harness_error"] = res["not_judged"].get("harness_error", 0) + 1
             res["sets"].setdefault("harness_errors", set()).add(traceback.format_exc()[-400:])
+    if idx == 5 % n:
+        try:
+            run_high_order_towers(res, anp)
+        except Exception:
+            res["not_judged"]["harness_error"] = res["not_judged"].get("harness_error", 0) + 1
+            res["sets"].setdefault("harness_errors", set()).add(traceback.format_exc()[-400:])
     res["sets"] = {k: sorted(v) for k, v in res["sets"].items()}
     # max is not additive across shards; keep it as a set entry as well
     res["sets"]["max_trace_depth"] = [str(res["counters"].pop("max_trace_depth", 0))]
@@ -512,6 +573,10 @@ def replay(pid, case):
     import autograd.numpy as anp
 
     res = _new_result()
+    if "tower" in case["spec"]:
+        run_high_order_towers(res, anp)
+        res["violations"] = [v for v in res["violations"] if v["case"] == case]
+        return res
     run_spec(res, case["spec"], ag_ops(), anp)
     res["counters"].pop("max_trace_depth", None)
     return res
